@@ -90,6 +90,8 @@ type FuncGen struct {
 	cur      *State // state while executing a block
 	curBlock *ssa.BasicBlock
 	curInstr ssa.Instruction
+	stableCache map[string]bool
+	ignoreStable bool
 	ancCache map[int]map[int]bool
 	curGuard string
 	seed     []string
@@ -952,7 +954,11 @@ func (g *FuncGen) havocForLoop(li *loopInfo) {
 	c := g.c
 	classes, all := g.loopWrites(li)
 	label := fmt.Sprintf("loop%d", li.ordinal)
+	stable := g.stableClasses()
 	for _, cl := range c.classList {
+		if stable[cl] && !classes[cl] {
+			continue // only unknown callees could write it, and they are assumed not to (option stable)
+		}
 		if all || classes[cl] {
 			old := g.heapOf(g.cur, cl)
 			n := c.fresh(cl+"@"+label, c.classes[cl])
@@ -1014,8 +1020,48 @@ func (g *FuncGen) loopWritesGhost(li *loopInfo, name string) bool {
 	}
 	for _, ga := range g.contract.Ghosts {
 		for _, st := range ga.Stmts {
-			if st.Kind == "set" && st.Var == name {
-				return true // conservative: any ghost update anywhere
+			if st.Kind == "set" && st.Var == name && g.loopCalls(li, ga.Callee) {
+				return true // a call that triggers this ghost update occurs inside the loop
+			}
+		}
+	}
+	return false
+}
+
+// loopCalls: some call inside the loop may match the callee suffix of a `ghost at call` clause (conservative: a
+// call whose target cannot be named counts as a match unless it is a plain callback parameter).
+func (g *FuncGen) loopCalls(li *loopInfo, calleeSuffix string) bool {
+	for b := range li.blocks {
+		for _, in := range b.Instrs {
+			var cc *ssa.CallCommon
+			switch x := in.(type) {
+			case *ssa.Call:
+				cc = &x.Call
+			case *ssa.Defer:
+				cc = &x.Call
+			case *ssa.Go:
+				cc = &x.Call
+			default:
+				continue
+			}
+			if _, isB := cc.Value.(*ssa.Builtin); isB {
+				continue
+			}
+			name := ""
+			if cc.IsInvoke() {
+				name = fmt.Sprintf("(%s).%s", types.TypeString(types.Unalias(cc.Value.Type()), nil), cc.Method.Name())
+			} else if callee := cc.StaticCallee(); callee != nil {
+				name = callee.String()
+				if o := callee.Origin(); o != nil {
+					name = o.String()
+				}
+			} else if p, ok := cc.Value.(*ssa.Parameter); ok {
+				name = "callback " + p.Name()
+			} else {
+				return true
+			}
+			if strings.HasSuffix(name, calleeSuffix) || strings.HasSuffix(stripTypeParams(name), calleeSuffix) {
+				return true
 			}
 		}
 	}
